@@ -19,9 +19,14 @@ B: begins with a paragraph, an ATX heading, a Setext heading or a horizontal rul
 A whitespace-only A (any width, tabs, several lines) and an A whose FIRST line is whitespace-only are generated on purpose: F-C09-1 (such a
 first line was not emptied: '    \n\nB' gave an empty code block) is repaired, convert(A) is '' and the combined document must equal
 convert(B); nothing tags that shape any more.
-One other property's known finding can leak in and is tagged:
-   * F-C10-2: a leaked inline placeholder (`[]("\((`) makes the output depend on the running stash counter; tagged when any of the
-     three outputs contains STX, ETX or the stem `klzzwxh:`.
+Targeted shapes (small probabilities): A ending in a paragraph whose LAZY continuation line, indented by a full tab stop, looks like a
+reference definition (`w\n    [r]: /u` -- not a definition: those are indented by at most 3 spaces; it is the only place where `]:` may occur);
+A ending in a loose list whose later item is a `#` heading directly followed by another line; B starting with a heading directly followed by
+an indented line (code), or spelling an inline placeholder with STX/ETX (removed by input normalisation).  Every search also evaluates ONE
+long pair (`long_A()`: 2500 paragraphs, more than 10 000 stashed inline nodes; deterministic).
+One other property's known finding can leak in and is tagged (as F-C08-1, registered for this property):
+   * F-C10-1 / F-C10-2: a leaked inline placeholder (`[]("\((`) makes the output depend on the running stash counter; tagged when any of the
+     three outputs contains STX, ETX or the stem `klzzwxh:` and the input does not spell that stem itself.
 """
 import re
 import markdown
@@ -29,7 +34,13 @@ from gen import docs2 as docs, common
 
 NEEDS_DRIVER = False
 
-FINDINGS = []      # C08 has no known finding of its own
+FINDINGS = [
+    # not a defect of block independence itself: the knock-on effect of the placeholder leaks F-C10-1 / F-C10-2 on this property.  (The
+    # framework accepts a tag only if a finding with that id is registered for THIS property: hence an id of its own.)
+    {'id': 'F-C08-1', 'property': 'C08', 'status': 'open',
+     'what': 'knock-on of the placeholder leaks F-C10-1/F-C10-2: a leaked inline placeholder carries the document-wide stash index, so the rendering of B depends on how many inline nodes A stashed',
+     'witness': {'A': '*x*', 'B': '[]("\\(('}},
+]
 
 _HR = re.compile(r'^[ ]{0,3}(?=(?P<atomicgroup>(-+[ ]{0,2}){3,}|(_+[ ]{0,2}){3,}|(\*+[ ]{0,2}){3,}))(?P=atomicgroup)[ ]*$')
 _LISTQ = re.compile(r'^[ ]{0,3}(?:[*+-][ ]+|\d+\.[ ]+|>)')
@@ -54,9 +65,28 @@ def gen_text(rng, small=False):
     return clean(t)
 
 
+# a paragraph whose LAZY continuation line, indented by a full tab stop, looks like a reference definition: it is NOT one (a definition is
+# indented by at most 3 spaces; a block that starts with 4 is code) -- plain paragraph text; B may use the label (`[r]`, `[a]`)
+LAZYDEF = ['w\n    [r]: /u', 'the list is kept\n    [a]: /u "T"\nand refreshed', 'p\n    [r]: http://x.y/z\n    [a]: /v', 'q *e*\n     [r]: /five']
+# a loose list in which a later item is a `#` heading directly followed by another line (HashHeaderProcessor re-queues it inside the item)
+HEADITEM = ['- First\n\n- ## Second\n    details', '1. a\n\n2. # b\n    c *d*', '* x\n\n* # h\n    t\n\n* z', '- a\n\n- # b\n    c\n\n    more']
+# B: a heading directly followed by an indented line (code), a forged inline placeholder (STX/ETX are removed by input normalisation)
+B_PROBES = ['## Install\n    pip install x', '# h\n    code *x*', 'Raw \x02klzzwxh:0000\x03 x', 'w \x02klzzwxh:0001\x03\x02klzzwxh:0000\x03']
+
+
+def strip_lazydef(a):
+    for suf in LAZYDEF:
+        if a == suf: return ''
+        if a.endswith('\n\n' + suf): return a[:-len(suf)]
+    return a
+
+
 def gen_A(rng):
     if rng.random() < 0.03: return ''
     a = gen_text(rng)
+    k = rng.random()
+    if k < 0.04: return (a.rstrip('\n') + '\n\n' if a.strip() else '') + rng.choice(LAZYDEF)
+    if k < 0.08: return (a.rstrip('\n') + '\n\n' if a.strip() else '') + rng.choice(HEADITEM) + rng.choice(['', '', '\n'])
     if rng.random() < 0.2: a += rng.choice(['\n', '\n\n', '\n\n\n', '  ', '\\', '\n    ', ' \n', '\n>', '\n- ', '\n\n    code\n\n'])
     k = rng.random()
     if k < 0.04:                                   # A consisting of white space only (any width, tabs, several lines): renders '' and must not disturb B
@@ -88,6 +118,7 @@ def gen_B(rng):
             b = rng.choice(['# h', '## h ##', 'h\n===', 'h\n---', '---', '* * *', '___', 'p', ' p', '   p', '#', '=', '===', '-', '+', '1.', '\\- x', '**x',
                             '_a', '`c', '[l](', '![i][r]', '[r][]', '[r]', 'a  ', 'a\\']) + rng.choice(['', '\n', '\n\n', ' ']) + b
     b = clean(b).lstrip('\n')
+    if rng.random() < 0.06: b = rng.choice(B_PROBES) + rng.choice(['', '\n\n' + b])
     ls = b.split('\n')
     L = ls[0].replace('\t', ' ')
     if not first_line_ok(L):
@@ -97,6 +128,13 @@ def gen_B(rng):
         if not first_line_ok(L): L = 'w' + L.lstrip(' ')
     ls[0] = L
     return '\n'.join(ls)
+
+
+LONG_B = 'Thanks to *all* contributors.\n\n# The End'
+
+
+def long_A(k=2500):
+    return '\n\n'.join('Entry %d: fixed a *bug* in `mod%d` (see [ticket](http://tracker.example/%d)) and **more**.' % (i, i, i) for i in range(k))
 
 
 def J(a, b):
@@ -112,7 +150,7 @@ def evaluate(A, B, md=None):
     want = J(oa, ob)
     if oab == want: return 'ok', (oa, ob)
     finding = None
-    if any(('\x02' in o or '\x03' in o or 'klzzwxh:' in o) for o in (oa, ob, oab)): finding = 'F-C10-2'
+    if 'klzzwxh' not in A + B and any(('\x02' in o or '\x03' in o or 'klzzwxh:' in o) for o in (oa, ob, oab)): finding = 'F-C08-1'
     return 'viol', {'input': {'A': A, 'B': B}, 'config': {}, 'observed': repr(oab), 'required': repr(want), 'finding': finding}
 
 
@@ -129,9 +167,16 @@ def search(driver, rng, n):
     dist = {}
     def bump(k): dist[k] = dist.get(k, 0) + 1
     viol, samples, seen, cases = [], [], set(), 0
+    # ONE long document (deterministic, not from rng): A stashes more than 10 000 inline nodes (the stash is numbered per document)
+    cases += 1
+    st, d = evaluate(long_A(), LONG_B, md)
+    if st == 'viol':
+        i = next((k for k in range(min(len(d['observed']), len(d['required']))) if d['observed'][k] != d['required'][k]), 0)
+        viol.append({'input': {'A': 'long_A()', 'B': LONG_B}, 'config': {}, 'observed': 'first difference at offset %d: …%s' % (i, d['observed'][max(0, i - 60):i + 80]),
+                     'required': '…' + d['required'][max(0, i - 60):i + 80], 'finding': None})
     for _ in range(n):
         A, B = gen_A(rng), gen_B(rng)
-        if not first_line_ok(B.split('\n')[0].replace('\t', ' ')) or '<' in A + B or '&' in A + B or ']:' in A + B:
+        if not first_line_ok(B.split('\n')[0].replace('\t', ' ')) or '<' in A + B or '&' in A + B or ']:' in strip_lazydef(A) + B:
             bump('gen-rejected'); continue
         cases += 1
         try:
@@ -162,6 +207,7 @@ def replay(witness):
 
 def replay_violation(v):
     try:
-        return evaluate(v['input']['A'], v['input']['B'])[0] == 'viol'
+        A = v['input']['A']
+        return evaluate(long_A() if A == 'long_A()' else A, v['input']['B'])[0] == 'viol'
     except Exception:
         return True
